@@ -19,7 +19,8 @@ func randomEnv(rn *Runner, d *Doc) *Env {
 	r := rn.R
 	env := &Env{}
 	uris := []string{"urn:u1", "urn:u2", "http://example.com/ns", "urn:other"}
-	for _, p := range []string{"p", "q", "r", "p2", "xml", "w"} {
+	// prefixes that spell axis names and node types are legal NCNames (dedicated productions)
+	for _, p := range []string{"p", "q", "r", "p2", "xml", "w", "child", "self", "text", "descendant"} {
 		switch {
 		case p == "xml":
 			if r.Chance(1, 2) {
@@ -216,7 +217,7 @@ func famC11(rn *Runner) {
 		for k := 0; k < rn.Scale(4, 8) && !rn.TooMany(); k++ {
 			env := randomEnv(rn, d)
 			g := NewExprGen(rn.R.Fork(), d, env)
-			g.Prefixes = []string{"p", "q", "r", "p2", "w", "zz"}
+			g.Prefixes = []string{"p", "q", "r", "p2", "w", "zz", "child", "self", "text", "descendant"}
 			for i := 0; i < rn.Scale(150, 400) && !rn.TooMany(); i++ {
 				var e Expr
 				switch rn.R.Intn(5) {
@@ -247,7 +248,7 @@ func famC11(rn *Runner) {
 				r1, _ := rn.CheckQuery(q, "names resolve through the query's bindings", func(res string) bool { return mb && res != "L" })
 				// consistent renaming of prefixes in the query and its bindings
 				if rn.R.Chance(1, 3) {
-					m := map[string]string{"p": "q", "q": "p", "p2": "second", "r": "rr", "w": "w0"}
+					m := map[string]string{"p": "q", "q": "p", "p2": "second", "r": "rr", "w": "w0", "child": "text", "text": "ancestor", "self": "comment"}
 					env2 := &Env{Vars: env.Vars, Funs: env.Funs}
 					for _, b := range env.NS {
 						if n, ok := m[b.Prefix]; ok {
